@@ -117,7 +117,7 @@ Inductive ack :=
 | AConnAck (id : N) (session_present : bool)
 | APubAck (pkid : N) | ASubAck (pkid : N) (codes : list N)
 | APubRec (pkid : N) | APubRel (pkid : N) | APubComp (pkid : N)
-| AUnsubAck (pkid : N) | APingResp.
+| AUnsubAck (pkid : N) (reasons : list N) | APingResp.
 
 Inductive notification :=
 | NForward (c : option cursor) (p : publish) (props : option pprops)
